@@ -219,6 +219,11 @@ func authorityIndexBeforeAppend(e *Env, us *ssa.Function) {
 		e.R.Undecided("ORDER", key, e.P.Pos(us.Pos()), "cannot identify the load of Authorities feeding the authority index and the store of the appended chain")
 		return
 	}
+	// the whole chain is appended, unconditionally and in one piece: the signer's
+	// leaf then sits exactly at the index read before (a chain appended
+	// certificate by certificate under a condition - de-duplication - can leave
+	// the leaf somewhere else, or nowhere)
+	e.requireStore("RESULT", us, "*.Authorities", "append(*.Authorities,param:s.Certs)", "the authorities followed by the signer's whole chain")
 	if before(lenLoad, appendStore) {
 		e.R.OK("ORDER", key, e.P.InstrPos(lenLoad), "len(signatures.Authorities) is read before the signer's chain is appended")
 	} else {
